@@ -5,6 +5,8 @@ import os
 from vlib import ToolError, log, WORK
 
 LOOP = "mon/MonLoop.tla"
+CONF = ("conf/ConfLoop.tla", "ConfLoop.cfg")
+MC = "mc/MC_Sched.tla"
 
 
 def has_genuine(s):
@@ -27,47 +29,59 @@ LOOP_ASSUME = [
 ]
 
 
+MODEL_RULE = ("model: TLC explores every interleaving of the tracer loop with the environment for every configuration record in the named set (spec/mc/MC_Sched.tla); "
+              "implementation: ")
+
+
 def c06(ctx):
     q = ctx.quick()
-    ctx.sim("sched", 250 if q else 4000, LOOP, "MonLoop_C06.cfg", nontrivial=has_genuine)
-    ctx.sim("loop", 150 if q else 3000, LOOP, "MonLoop_C06.cfg", seed_off=1, nontrivial=has_genuine)
-    ctx.write_evidence("exploration", "distinct (family, configuration cell, topology/ttl shape) of scenarios with >= 1 genuine response handed to the tracer",
+    ctx.model(MC, "MC_Sched_C06.cfg")
+    ctx.model(MC, "MC_Tcp_C06.cfg")
+    ctx.sim("sched", 250 if q else 4000, LOOP, "MonLoop_C06.cfg", nontrivial=has_genuine, conf=CONF)
+    ctx.sim("loop", 150 if q else 3000, LOOP, "MonLoop_C06.cfg", seed_off=1, nontrivial=has_genuine, conf=CONF)
+    ctx.write_evidence("model_checking", MODEL_RULE + "distinct (family, configuration cell, topology/ttl shape) of scenarios with >= 1 genuine response handed to the tracer",
                        assumptions=LOOP_ASSUME)
 
 
 def c08(ctx):
     q = ctx.quick()
-    ctx.sim("timing", 300 if q else 5000, LOOP, "MonLoop_C08.cfg", nontrivial=has_genuine)
+    ctx.model(MC, "MC_Timing_C08.cfg")
+    ctx.sim("timing", 300 if q else 5000, LOOP, "MonLoop_C08.cfg", nontrivial=has_genuine, conf=CONF)
     ctx.sim("loop", 100 if q else 3000, LOOP, "MonLoop_C08.cfg", seed_off=1, nontrivial=has_genuine)
-    ctx.write_evidence("exploration", "distinct (family, cell, shape) of scenarios with >= 1 genuine response", assumptions=LOOP_ASSUME)
+    ctx.write_evidence("model_checking", MODEL_RULE + "distinct (family, cell, shape) of scenarios with >= 1 genuine response", assumptions=LOOP_ASSUME)
 
 
 def c01(ctx):
     q = ctx.quick()
-    ctx.sim("loop", 400 if q else 10000, LOOP, "MonLoop_C01.cfg", nontrivial=has_genuine)
-    ctx.write_evidence("exploration", "distinct (family, cell, shape) of scenarios with >= 1 genuine response", assumptions=LOOP_ASSUME)
+    ctx.model(MC, "MC_Sched_C01.cfg")
+    ctx.sim("loop", 400 if q else 10000, LOOP, "MonLoop_C01.cfg", nontrivial=has_genuine, conf=CONF)
+    ctx.write_evidence("model_checking", MODEL_RULE + "distinct (family, cell, shape) of scenarios with >= 1 genuine response", assumptions=LOOP_ASSUME)
 
 
 def c03(ctx):
     q = ctx.quick()
-    ctx.sim("noise", 300 if q else 6000, LOOP, "MonLoop_C03.cfg", nontrivial=has_noise)
-    ctx.write_evidence("exploration", "distinct (family, cell, shape) of scenarios with >= 1 genuine and >= 1 noise delivery (dup/late/foreign/never/garbage)",
+    ctx.model(MC, "MC_NoiseQ_C03.cfg" if q else "MC_NoiseMid_C03.cfg", timeout=3000)
+    ctx.model(MC, "MC_F7.cfg", expect_violation="NoiseIsNoOp", label="MC_F7 (non-vacuity)")
+    ctx.sim("noise", 300 if q else 6000, LOOP, "MonLoop_C03.cfg", nontrivial=has_noise, conf=CONF)
+    ctx.write_evidence("model_checking", MODEL_RULE + "distinct (family, cell, shape) of scenarios with >= 1 genuine and >= 1 noise delivery (dup/late/foreign/never/garbage)",
                        assumptions=LOOP_ASSUME)
 
 
 def c09(ctx):
     q = ctx.quick()
-    ctx.sim("fault", 400 if q else 8000, LOOP, "MonLoop_C09.cfg", nontrivial=has_fault)
+    ctx.model(MC, "MC_Fault_C09.cfg")
+    ctx.sim("fault", 400 if q else 8000, LOOP, "MonLoop_C09.cfg", nontrivial=has_fault, conf=CONF)
     ctx.sim("loop", 100 if q else 2000, LOOP, "MonLoop_C09.cfg", seed_off=1, nontrivial=has_genuine)
-    ctx.write_evidence("fault_enumeration", "distinct (family, cell, shape) of scenarios in which >= 1 injected fault fired (fault family) or >= 1 response arrived (loop family)",
+    ctx.write_evidence("model_checking", MODEL_RULE + "distinct (family, cell, shape) of scenarios in which >= 1 injected fault fired (fault family) or >= 1 response arrived (loop family)",
                        assumptions=LOOP_ASSUME)
 
 
 def c10(ctx):
     q = ctx.quick()
+    ctx.model(MC, "MC_Sched_C10.cfg")
     ctx.sim("loop", 300 if q else 8000, LOOP, "MonLoop_C10.cfg", nontrivial=has_genuine)
     ctx.sim("sched", 100 if q else 2000, LOOP, "MonLoop_C10.cfg", seed_off=1, nontrivial=has_genuine)
-    ctx.write_evidence("exploration", "distinct (family, cell, shape) of scenarios with >= 1 genuine response", assumptions=LOOP_ASSUME)
+    ctx.write_evidence("model_checking", MODEL_RULE + "distinct (family, cell, shape) of scenarios with >= 1 genuine response", assumptions=LOOP_ASSUME)
 
 
 PROPS = {"C01": c01, "C03": c03, "C06": c06, "C08": c08, "C09": c09, "C10": c10}
